@@ -54,7 +54,11 @@ Next ==
                       LET s == Src(j, k) IN s[1] = "ok" /\ Clean(s) /\ e.entries[j].calls[k].out # s}}
          \* without optimisation every non-inline function reachable from the main expression has an entry whose code occurs
          Present == {e.entries[i].name : i \in {j \in E : e.entries[j].in_program}}
-         B3 == IF e.optimized \/ ~e.reports_symbols THEN {} ELSE {<<l, "reachable-function-without-entry", n>> : n \in {m \in Reachable(P) : ~Inline(P, m) /\ m \notin Present}}
+         \* (the table is keyed by the tree hash of the code: functions with identical code have one entry between them, so
+         \* as many names may be absent as the function table has leaves repeating the code of another leaf: e.shared_code)
+         Missing == {m \in Reachable(P) : ~Inline(P, m) /\ m \notin Present}
+         B3 == IF e.optimized \/ ~e.reports_symbols \/ Cardinality(Missing) <= e.shared_code THEN {}
+               ELSE {<<l, "reachable-function-without-entry", n>> : n \in Missing}
      IN /\ bad' = bad \cup B1 \cup B2 \cup B3
         /\ cnt' = [cnt EXCEPT !.records = @ + 1, !.entries = @ + Len(e.entries),
                               !.calls = @ + Cardinality({<<i, k>> \in E \X (1..3) : k \in CallsOf(i)}),
